@@ -74,6 +74,15 @@ def check_case(case, rec):
         rec.count(f'generator-reject:{e}')
         return
     snap = molgen.snapshot(m)
+    # the canonical text must not depend on which accessor filled the cache first (the written order is cached together with it)
+    try:
+        m2 = molgen.build(case['mol'])
+        m2.smiles_atoms_order
+        if str(m2) != str(m) or format(m2, 'm') != format(m, 'm'):
+            rec.fail('writer-call-order', f'str() gives {str(m2)!r} when smiles_atoms_order was read first, {str(m)!r} otherwise')
+            return
+    except molgen.Reject:
+        pass
     for k, f in enumerate(case['fmt']):
         sd = case['seed'] + k
         _random.seed(sd)
